@@ -4,7 +4,7 @@ Open Scope N_scope.
 
 Inductive tvk :=
 | TvData (i b l : N) | TvDrop (i b l : N) | TvPeerHave (i : N) (have : bool)
-| TvPeerBitmap (bits : list N) (have : bool) | TvRequest | TvGoaway | TvOther.
+| TvPeerBitmap (bits : list N) (have : bool) | TvRequest | TvCommand (chunks : list N) | TvGoaway | TvOther.
 
 Definition delta := list (N * N * N).    (* index, before, after *)
 
@@ -45,6 +45,7 @@ Definition step_ok (psize : N) (f a : cnt) (e : tvk * delta * delta) : option (c
       | TvPeerHave i h => okf f && oka (peer_have a i h)
       | TvPeerBitmap bits h => okf f && oka (peer_bitmap a bits h)
       | TvRequest | TvOther => legit_up df && oka a
+      | TvCommand chunks => (okf (commanded f chunks) || is_nil df) && oka a   (* counted only if the queue accepted it *)
       | TvGoaway => legit_down df && oka a
       end in
     if good then Some (f', a') else None
